@@ -31,6 +31,24 @@ CHECKS = {
             'maildir(fs) with a full probe dump after every command.',
             'Trusted: as C01. COPY/MOVE/FETCH-seen/CLOSE are in the executable model and the reference monitor but their refinement lemmas are not yet proved in Lean.',
             'DESIGN.md section 6 C10'),
+    'C04': ('Lean 4 invariant by induction over mailbox operations (UID monotonicity, UIDNEXT, APPENDUID/COPYUID pairing) + differential correspondence + history monitor',
+            'C04_uid_monotone (any operation list, incl. expunge-highest-then-append), C04_uidnext, C04_appenduid, C04_copyuid_pairing and C15_recover (maildir adoption hands out fresh UIDs only) are proved in Lean. '
+            'Tie: APPENDUID/COPYUID/UIDNEXT values are diffed per command between the real dict server and the Lean Server model. Monitor: probe dump after every command on dict and both maildir layouts '
+            '(monotone assignment, no reuse, no resurrection, truthful UIDNEXT/APPENDUID/COPYUID, content pairing) and RENAME histories.',
+            'Trusted: as C01. The crash/restart half of the property is decided by C15\'s check. UIDVALIDITY freshness of a re-created INBOX is an oracle hypothesis of the model (random 32-bit value in the code).',
+            'DESIGN.md section 6 C04'),
+    'C12': ('Lean 4 frame theorem over the session-command model + differential correspondence + per-command frame monitor',
+            'C12_frame / C12_frame_program (every command list of a read-only selection leaves the mailbox model unchanged), C12_answers and C12_readonly_refuses are proved in Lean. Tie: real connections vs the Lean Server '
+            'model with session 0 inside EXAMINE and 0-2 read-write sessions. Monitor: probe dump of all mailboxes after every command; a command of the read-only selection must leave them identical (APPEND/COPY add only), '
+            'STORE/EXPUNGE NO, CLOSE OK, \\Recent not consumed; a backend read-only mailbox (demo Trash) is a directed scenario.',
+            'Trusted: as C01. MOVE out of a read-only selection is refused since the fix: commit found by this check (D39).',
+            'DESIGN.md section 6 C12'),
+    'C17': ('Lean 4 invariant over the \\Recent bookkeeping model (at most one holder over the life of a message) + differential correspondence + attribution monitor',
+            'C17_at_most_one, C17_first_rw_gets_it, C17_not_stored_after are proved in Lean for every history of select/examine/close/append/expunge and every any_selected oracle. Tie: real connections vs Lean Server '
+            '(select/append/copyMove/pickDest are the executable form of Recent.step). Monitor: every FETCH showing \\Recent is attributed to (mailbox, uid, connection, selection epoch) from the bytes alone: at most one '
+            'read-write selection, never a read-only one, first read-write SELECT gets what arrived unselected, RECENT counts agree, an EXAMINE-only probe never sees \\Recent.',
+            'Trusted: as C01; which read-write session any_selected picks is read from the real run. The WeakSet/GC dependence was a genuine defect (D36, fixed).',
+            'DESIGN.md section 6 C17'),
 }
 
 NOT_YET = 'check not built yet in this round (see DESIGN.md section 10 for the build order); nothing is claimed'
